@@ -276,7 +276,21 @@ pub(crate) struct NotificationProtocol {
     executor: Arc<dyn Executor>,
 
     /// Pending substream validations.
-    pending_validations: FuturesUnordered<BoxFuture<'static, (PeerId, ValidationResult)>>,
+    ///
+    /// Each validation request is tagged with an ID so that the answer to a request can be told
+    /// apart from the answer to an earlier request for the same peer, see `current_validation`.
+    pending_validations: FuturesUnordered<BoxFuture<'static, (PeerId, usize, ValidationResult)>>,
+
+    /// ID of the latest validation request sent to the user for the peer.
+    ///
+    /// A validation result is only valid for the inbound substream it was requested for. If the
+    /// substream was discarded while the request was pending (e.g., the connection was closed while
+    /// an outbound substream was also in progress) and the peer has since opened a new inbound
+    /// substream, the answer to the old request must not be applied to the new substream.
+    current_validation: HashMap<PeerId, usize>,
+
+    /// Next validation request ID.
+    next_validation_id: usize,
 
     /// Timers for pending outbound substreams.
     timers: FuturesUnordered<BoxFuture<'static, PeerId>>,
@@ -302,6 +316,8 @@ impl NotificationProtocol {
             protocol: config.protocol_name,
             auto_accept: config.auto_accept,
             pending_validations: FuturesUnordered::new(),
+            current_validation: HashMap::new(),
+            next_validation_id: 0usize,
             timers: FuturesUnordered::new(),
             event_handle: NotificationEventHandle::new(config.event_tx),
             notif_tx: config.notif_tx,
@@ -1407,11 +1423,14 @@ impl NotificationProtocol {
                             };
 
                             let (tx, rx) = oneshot::channel();
+                            let id = self.next_validation_id;
+                            self.next_validation_id = self.next_validation_id.wrapping_add(1);
+                            self.current_validation.insert(peer, id);
                             self.pending_validations.push(Box::pin(async move {
                                 match rx.await {
                                     Ok(ValidationResult::Accept) =>
-                                        (peer, ValidationResult::Accept),
-                                    _ => (peer, ValidationResult::Reject),
+                                        (peer, id, ValidationResult::Accept),
+                                    _ => (peer, id, ValidationResult::Reject),
                                 }
                             }));
 
@@ -1784,11 +1803,25 @@ impl NotificationProtocol {
                 }
             },
             result = self.pending_validations.select_next_some(), if !self.pending_validations.is_empty() => {
-                if let Err(error) = self.on_validation_result(result.0, result.1).await {
+                let (peer, id, result) = result;
+
+                if self.current_validation.get(&peer) != Some(&id) {
                     tracing::debug!(
                         target: LOG_TARGET,
-                        peer = ?result.0,
-                        result = ?result.1,
+                        ?peer,
+                        protocol = %self.protocol,
+                        ?result,
+                        "ignoring result of a superseded validation request",
+                    );
+                    return false;
+                }
+                self.current_validation.remove(&peer);
+
+                if let Err(error) = self.on_validation_result(peer, result).await {
+                    tracing::debug!(
+                        target: LOG_TARGET,
+                        ?peer,
+                        ?result,
                         ?error,
                         "failed to handle validation result",
                     );
